@@ -57,7 +57,8 @@ def validate(wt, prop):
 
 def main():
     root = sys.argv[1]
-    props = sorted(d for d in os.listdir(root) if os.path.isdir(os.path.join(root, d)) and d.startswith('C'))
+    only = sys.argv[3:]
+    props = sorted(d for d in os.listdir(root) if os.path.isdir(os.path.join(root, d)) and d.startswith('C') and (not only or d in only))
     kept = []
     with ThreadPoolExecutor(10) as ex:
         results = list(ex.map(lambda p: (p, validate(os.path.join(root, p), p)), props))
